@@ -10,14 +10,63 @@ ROOT = os.path.dirname(os.path.dirname(os.path.abspath(__file__)))
 TECH = 'deterministic simulation with fault injection: '
 
 CLAIMED = {
+  'C02': dict(
+    technique=TECH + 'refinement of the real MetricCache against a dict-of-dict reference model stepped in '
+    'lock-acquisition order, under seeded line-level interleavings of the receiving and writer threads',
+    text='Seeded exploration of store / drain / cache-query histories x thread schedules x six strategies on the '
+         'booted carbon-cache (real listener -> pipeline -> cache path, real CacheManagementHandler). After every '
+         'critical section the cache contents and size must equal the model; every drain must return the model\'s '
+         'batch, every query a value the model held during the query.',
+    ref='6 (C02)'),
+  'C03': dict(
+    technique=TECH + 'real writer loop on a fault-injecting in-memory storage plugin; history oracle matching each '
+    'drained batch to exactly one write / counted drop / counted or logged error',
+    text='Seeded exploration of workloads x thread schedules x backend fault placements (exists/create/write raise '
+         'IOError/ENOSPC/RuntimeError or stall) x rate limits x strategies; the recorded history of drains, backend '
+         'calls, counters and logged errors is checked batch by batch.',
+    ref='6 (C03)'),
+  'C04': dict(
+    technique=TECH + 'reactor.stop() (real three-phase trigger sequence) injected at seeded points of the plan and of '
+    'the writer loop; oracle: nothing accepted before the stop is left in the cache when the writer thread exits',
+    text='Seeded placement of an orderly stop between any two receiver operations and, by schedule, between any two '
+         'lines of the writer loop (idle sleep, rate-limit wait, mid-pass), x strategies x MIN_TIMESTAMP_LAG x limits '
+         'x MAX_UPDATES_PER_SECOND_ON_SHUTDOWN; bounded liveness: the writer exits within 1 h virtual.',
+    ref='6 (C04)'),
+  'C09': dict(
+    technique=TECH + 'bounded-liveness oracle at quiescence over seeded interleavings of the storing thread, the '
+    'writer thread and receiver connect/disconnect events around the cache watermarks',
+    text='Cache side (world B): flow control on, tiny caches, pause/resume cycles with connection churn, hot '
+         'pre-emption in events.py / protocols.py; at quiescence a cache below its low watermark must leave no '
+         'receiver paused. The relay side is added when world C is built.',
+    ref='6 (C09)'),
+  'C10': dict(
+    technique=TECH + 'bound checked at every lock release and thread switch, refusal signalling checked against the '
+    'reference admission rule, under seeded interleavings',
+    text='MAX_CACHE_SIZE 1..6, 20, 40, flow control on/off, all strategies: cache.size <= hard limit at every '
+         'scheduling point; a refused store fires the overflow signal exactly once and changes neither contents nor '
+         'key set; a duplicate timestamp is accepted when full. One known finding (fractional hard limit).',
+    ref='6 (C10), 9.8'),
   'C17': dict(
-    world='B', technique=TECH + 'seeded search over line-level interleavings of the storing and '
-    'draining threads on the real MetricCache, oracle = strategy clauses against a reference cache '
-    'stepped in lock-acquisition order',
-    text='Seeded exploration of store/drain histories x thread schedules x six strategies x lag x '
-         'bounded/unbounded cache on the real booted carbon-cache; every violation is minimised and '
-         'replays exactly. Evidence over the sampled seeds, not a proof.',
+    technique=TECH + 'seeded search over line-level interleavings of the storing and draining threads on the real '
+    'MetricCache; oracle = strategy clauses evaluated against the reference cache at the choose point',
+    text='Seeded exploration of store/drain histories x thread schedules x six strategies x lag x bounded/unbounded '
+         'cache on the real booted carbon-cache; every violation is minimised and replays exactly.',
     ref='6 (C17), 3.3'),
+  'C19': dict(
+    technique=TECH + 'create path exercised inside the real writer loop with failing creates and schema files rewritten '
+    'under the 60 s reload timer; oracle = reference evaluator of the documented schema language',
+    text='Generated storage-schemas.conf / storage-aggregation.conf (1..6 sections, overlapping patterns, missing '
+         'keys, all unit suffixes) loaded by the real code; every simdb.create() argument tuple must equal the '
+         'reference evaluation of a file version in force between the writer\'s previous backend call and the create.',
+    ref='6 (C19)'),
+  'C20': dict(
+    technique=TECH + 'TokenBucket on the virtual clock driven by seeded acquisition / clock-step / limit-change '
+    'histories (refinement against a lazy-refill reference bucket, every grant window checked), plus the writer\'s '
+    'real buckets observed through backend call times',
+    text='World E: capacities 1..1000, rates 1/60..1000, zero / tiny / huge clock steps, injected oversleep, limit '
+         'changes (also from a second simulated thread); every pair of grants is checked against rate*w + 2*burst '
+         '(+ new burst per limit change). World B: write/create call times of the booted writer incl. shutdown.',
+    ref='6 (C20)'),
 }
 
 NOT_APPLICABLE = {
